@@ -4,6 +4,19 @@ import json, sys
 BASE = json.load(open('/root/.vp/BASELINE.json'))
 ALL = ["C%02d" % i for i in range(1, 21)]
 CHECKS = {
+ "C09": dict(cat="model_checking", engine="schedmc+seqmc",
+   technique="explicit-state search over request histories on the real server.Run (instrumented build, model network), every response judged by an independent document classifier and proof verifier",
+   text="Both modes at (2,2) with real Groth16: single requests (all methods, every strict prefix of a valid document, all 1-byte bodies, all 2-byte bodies over 16 characters, 23 replacements x 6 fields, shape changes, over-long inputs, +1/+r perturbations) delivered in chunks to one server each, and all request histories of length <=2 (3 thorough) over an 8-letter alphabet on a fresh server each (state = tally of response classes); oracle = 405 / 400 malformed_body / 400 proving_error / 200 as documented, every 200 body decoded by an independent decoder and verified against the request's input hash; a panic escaping the handler or a missing response is a violation.",
+   note="net/http connection handling is the vhttp model; documents with absent/null fields or under-specified numeric notation may answer any documented outcome.", ref="DESIGN.md C09"),
+ "C13": dict(cat="model_checking", engine="schedmc",
+   technique="stateless DFS over interleavings of two real handler threads (statement-level scheduling points, preemption bound 1/2, state-key pruning) on the instrumented server+prover code; separate free-running -race pass",
+   text="Two (three) concurrent POSTs to the real instrumented handler path (server.go, marshal.go, *_proving_system.go) sharing one real proving system at (1,1): every interleaving of statement-level steps of the handler threads with <=1 preemption (2 thorough) for request pairs in both orders (valid/unsatisfiable/non-numeric/wrong-dims); each response must equal what the request gets on its own, each 200 body must verify for its own input hash and not for the other's. Plus a free-running race-detector pass on real net/http (sample).",
+   note="gnark/promhttp/encoding-json internals are atomic steps; connection set-up and server start/stop interleavings are frozen here (C14 explores them); memory-model effects only via the -race sample.", ref="DESIGN.md C13"),
+ "C20": dict(cat="model_checking", engine="schedmc+seqmc",
+   technique="explicit-state search over request histories with a scrape after every step + stateless DFS over interleavings of handler threads and scraper threads (preemption bound 1/2) on the real registry and wrapper",
+   text="Sequential: all request sequences of length <=2 (3) over {GET, HEAD, PUT, POST valid, POST unsatisfiable, POST not-JSON} on a fresh real server.Run, scraped through the real metrics handler on the metrics address after every request: per-(method, code) totals must equal the responses sent, no other pair non-zero, in-flight gauge 0. Concurrent: 2-3 clients + 1-2 scrapers, every interleaving of handler-thread steps with <=1 preemption; each scrape is judged against ground truth at the instant the metrics handler ran; exact equality at quiescence.",
+   note="promhttp/prometheus internals are atomic steps; only standard methods are in the alphabet.", ref="DESIGN.md C20"),
+
  "C14": dict(cat="model_checking", engine="schedmc",
    technique="stateless DFS over thread interleavings of the real, instrumented server/job code under a cooperative scheduler (iterated preemption bound 0,1,2, then unbounded with state-key pruning) against a model of net/http.Server",
    text="server/job.go and server/server.go are instrumented at check time from the working tree (statement-level scheduling points; go/chan/close/<-/sync rewritten to scheduler-visible operations; http.Server replaced by a model whose steps mirror go1.23 server.go) and executed under a controlled scheduler: driver Run; RequestStop; AwaitStop; then both addresses must be unbound; 0..2 clients whose requests may be refused or, once accepted, must complete; 1..2 start/stop cycles on the same addresses. Invariants on every execution: no deadlock, no panic in start, addresses free when AwaitStop returns, accepted requests complete. All interleavings with <=1 preemption at statement level and <=2 / unbounded preemptions over shared-object operations (state-key pruning).",
